@@ -527,7 +527,7 @@ class Part(object):
                     normal_dur *= 4 / ts.beat_type
                 if musical_beat:
                     normal_dur = ts.musical_beats
-                if actual_dur < normal_dur:
+                if actual_dur < normal_dur and not np.isclose(actual_dur, normal_dur):
                     y -= actual_dur
             else:
                 # warn
